@@ -448,8 +448,11 @@ pub fn junk(out: &mut Out, rng: &mut Rng, count: usize) {
             for _ in 0..jn { dmg.push(*rng.pick(&junk_bytes)); }
             dmg.extend_from_slice(&bytes[at..]);
             begin(out, &mut n, &s, "junk", json!({"at": at, "n": jn}));
-            run_reader::<DynTag>(out, "orig", &bytes, &ReaderCfg::strict(), &[], &until_end());
-            let mut c = ReaderCfg::strict(); if rng.chance(1, 3) { c.cap = Some(*rng.pick(&[16usize, 24, 64])); }
+            // the tolerance switches that cannot turn junk into items (oversized tags; hierarchy problems: the junk classes hold
+            // no id of the specification) must not change how recovery works
+            let allow = *rng.pick(&[0u8, 0, 4, 2, 6]);
+            run_reader::<DynTag>(out, "orig", &bytes, &ReaderCfg::strict().with_allow(allow), &[], &until_end());
+            let mut c = ReaderCfg::strict().with_allow(allow); if rng.chance(1, 3) { c.cap = Some(*rng.pick(&[16usize, 24, 64])); }
             let sch = chunkings(rng, dmg.len(), 1);
             let sc1 = sch[rng.below(sch.len())].clone();
             run_reader::<DynTag>(out, "dmg", &dmg, &c, &sc1, &Calls::Recovering { extra: 0, max_calls: 400 });
